@@ -98,7 +98,9 @@ func c35(r *Run) {
 			r.successGuards(w, "C35.R2", "Accept$1:append-after-VerifyRemoteChunk", vr[0], ap[0].Ins)
 			r.check(term(vr[0].Common().Args[1]) == "p2", "C35.R2", "Accept$1:verifies-the-response", r.at(w, vr[0]), "", "VerifyRemoteChunk is not applied to the received chunk")
 			// a handler error (p3) prevents the append
-			r.check(hasStr(ap[0].Conds(), "nil == p3") || hasStr(ap[0].Conds(), "p3 == nil"), "C35.R2", "Accept$1:no-append-on-request-error", r.at(w, ap[0].Ins), "", "the response is appended although the request failed")
+			r.check(hasMatch(ap[0].Conds(), "fv:chunkCert.*ChunkID == p2.id") && hasMatch(ap[0].Conds(), "fv:chunkCert.*Expiry == p2.*Expiry"), "C35.R2", "Accept$1:fetched-chunk-is-the-referenced-one", r.at(w, ap[0].Ins),
+			"appended only when id and expiry equal the certificate's", "a fetched chunk is appended without its id and expiry having been compared with the certificate: a peer serving another valid chunk gets it into the executed block")
+		r.check(hasStr(ap[0].Conds(), "nil == p3") || hasStr(ap[0].Conds(), "p3 == nil"), "C35.R2", "Accept$1:no-append-on-request-error", r.at(w, ap[0].Ins), "", "the response is appended although the request failed")
 		} else {
 			r.missing("C35.R2", "Accept$1:append-after-VerifyRemoteChunk", "VerifyRemoteChunk / append not found in the response handler")
 		}
@@ -132,6 +134,22 @@ func c35(r *Run) {
 	r.check(okk, "C35.R2", "Accept:window-and-min-after-all-chunks", w.rel(acc.Pos()), "", "the validity window / storage minimum are not advanced exactly after all certificates were processed")
 	for _, c := range callsNamed(acc, "(*"+pkgDsmr+".ChunkStorage).SetMin") {
 		r.failureLeadsToErrorReturn(w, "C35.R2", "Accept:SetMin-error-returned", c)
+	}
+
+	// R3: the fetch path of Accept goes through VerifyRemoteChunk, which must accept every valid chunk: the producer rate
+	// limit belongs to the two admission points (own chunks, signature requests), never to storage verification
+	r.rule("C35.R3", "K3", "CheckRateLimit is called only from BuildChunk and the signature-request verifier", 2)
+	allowed := map[string]bool{"(*" + pkgDsmr + ".Node).BuildChunk": true, "(" + pkgDsmr + ".ChunkSignatureRequestVerifier).Verify": true}
+	nrl := 0
+	for _, fn := range w.FnsInPkg(pkgDsmr) {
+		for _, c := range callsNamed(fn, "(*"+pkgDsmr+".ChunkStorage).CheckRateLimit") {
+			nrl++
+			r.check(allowed[fnName(fn)], "C35.R3", short(fnName(fn))+":CheckRateLimit", r.at(w, c), "admission point",
+				"the producer rate limit is applied in "+short(fnName(fn))+": a chunk fetched for an accepted block from a rate-limited producer is refused on every retry and Accept never completes")
+		}
+	}
+	if nrl == 0 {
+		r.missing("C35.R3", "CheckRateLimit-call-sites", "no call of ChunkStorage.CheckRateLimit found")
 	}
 }
 
@@ -231,6 +249,131 @@ func c36(r *Run) {
 			strings.Contains(strings.Join(wr, ";"), "[9:]") && strings.Contains(strings.Join(rd, ";"), "[9:]")
 		r.check(okk, "C36.R2", "chunk-key:encode/decode-offsets", w.rel(ck.Pos()), strings.Join(wr, " ; ")+" || "+strings.Join(rd, " ; "), "chunk key encoder and decoder do not use the same offsets")
 	}
+
+	// R3: what is restored from disk has no certificate: a pending entry's certificate is used only where it is non-nil
+	r.rule("C36.R3", "K9", "a pending chunk's certificate is dereferenced only under a non-nil test", 1)
+	nCert := 0
+	for _, fn := range w.FnsInPkg(pkgDsmr) {
+		if fn.Parent() != nil && !strings.Contains(fnName(fn), "ChunkStorage") {
+			continue
+		}
+		if !strings.Contains(fnName(fn), ".ChunkStorage).") {
+			continue
+		}
+		eachInstr(fn, func(ins ssa.Instruction) {
+			fa, ok := ins.(*ssa.FieldAddr)
+			if !ok {
+				return
+			}
+			o, f := fieldOwner(fa.X, fa.Field)
+			if o != pkgDsmr+".ChunkCertificate" {
+				return
+			}
+			// fa.X is a *ChunkCertificate loaded from a StoredChunkSignature's Cert field?
+			t := term(fa.X)
+			if !strings.HasSuffix(t, ".Cert") || !strings.Contains(t, "pendingChunkMap[") {
+				return
+			}
+			nCert++
+			cs := condStrings(ctrlConds(ins.Block()))
+			okk := hasStr(cs, "nil != "+t) || hasStr(cs, t+" != nil")
+			r.check(okk, "C36.R3", short(fnName(fn))+":Cert."+f+":non-nil", r.at(w, ins), "guarded by "+t+" != nil",
+				"the certificate of a pending chunk is dereferenced without a nil test: chunks received from peers or restored after a restart have none (nil-pointer panic on re-delivery or after reopen)")
+		})
+	}
+	if nCert == 0 {
+		r.missing("C36.R3", "pending-cert-dereference", "no use of a pending chunk's certificate found in ChunkStorage")
+	}
+
+	// R4: reopening resumes the verifier at the persisted minimum
+	r.rule("C36.R4", "K1", "NewChunkStorage hands the persisted minimum to the verifier before loading chunks", 1)
+	if ns := r.fn(w, "C36.R4", pkgDsmr+".NewChunkStorage"); ns != nil {
+		vs := findEffects(ns, "call (x/dsmr.Verifier).SetMin(p0, *)")
+		in := findEffects(ns, "call (*x/dsmr.ChunkStorage).init(*)")
+		okk := len(vs) == 1 && len(in) == 1 && strings.Contains(vs[0].Str, "ParseUInt64(") && strings.Contains(vs[0].Str, "x/dsmr.minSlotKey") && dominatesI(vs[0].Ins, in[0].Ins)
+		r.check(okk, "C36.R4", "NewChunkStorage:verifier-min-restored", w.rel(ns.Pos()), "", "the chunk verifier is not given the persisted minimum expiry on reopen: after a restart chunks are judged against minimum 0")
+	}
+
+	// R5: SetMin checks its whole save list before it changes anything
+	r.rule("C36.R5", "K1", "SetMin: a complete validation loop over the save list (pending, no duplicate) precedes every state change", 3)
+	if sm != nil {
+		// mutations: the minimum, pending-map discards, the expiry map
+		var muts []ssa.Instruction
+		for _, e := range findEffects(sm, "store p0.minimumExpiry = *") {
+			muts = append(muts, e.Ins)
+		}
+		for _, c := range callsNamed(sm, CS+"discardPendingChunk") {
+			muts = append(muts, c)
+		}
+		for _, e := range findEffects(sm, "call (*internal/emap.EMap).SetMin(p0.chunkEMap, *)") {
+			muts = append(muts, e.Ins)
+		}
+		// validation loop: a loop over p2 whose body returns an error under "!p0.pendingChunkMap[p2[i]]#1" and whose
+		// exhausted exit dominates every mutation
+		var vh *ssa.BasicBlock
+		for _, h := range loopHeaders(sm) {
+			loop := naturalLoop(h)
+			hasMut := false
+			for _, m := range muts {
+				if loop[m.Block()] {
+					hasMut = true
+				}
+			}
+			if hasMut {
+				continue
+			}
+			rejects := false
+			for _, o := range returnOutcomes(sm) {
+				if !o.NonNil || !hasMatch(o.Conds, "* < builtin.len(p2)") {
+					continue
+				}
+				// the return block hangs off the loop body
+				for _, p := range ctrlBlockOf(o).Preds {
+					if loop[p] {
+						rejects = true
+					}
+				}
+			}
+			cs := condStrings(ctrlCondsEdge(h, 0))
+			if rejects && hasMatch(cs, "* < builtin.len(p2)") {
+				vh = h
+				break
+			}
+		}
+		r.check(vh != nil && len(muts) >= 3, "C36.R5", "SetMin:validation-loop", w.rel(sm.Pos()), "", "SetMin has no mutation-free loop over the save list that rejects bad entries")
+		if vh != nil {
+			okk := true
+			for _, m := range muts {
+				// reachable only through the loop's exhausted exit
+				if found, _ := pathExists(entry(sm), isInstr(m), nil, map[edgeKey]bool{{vh.Index, 1}: true}); found {
+					okk = false
+				}
+			}
+			r.check(okk, "C36.R5", "SetMin:no-state-change-before-validation", w.rel(sm.Pos()), "", "SetMin changes in-memory state before the whole save list was validated: a failing call leaves memory ahead of the database, and a reopen yields a different state")
+			// the loop rejects non-pending and duplicate ids
+			rej := 0
+			for _, b := range sm.Blocks {
+				if !naturalLoop(vh)[b] {
+					continue
+				}
+				if ifi, ok := b.Instrs[len(b.Instrs)-1].(*ssa.If); ok {
+					p := predString(ifi.Cond, true)
+					if glob("p0.pendingChunkMap[p2[*]]#1", p) || glob("alloc(makemap)[p2[*]]#1", p) || glob("makemap(*)[p2[*]]#1", p) || strings.Contains(p, "Contains(") {
+						rej++
+					}
+				}
+			}
+			r.check(rej >= 2, "C36.R5", "SetMin:rejects-non-pending-and-duplicates", w.rel(sm.Pos()), "", "the validation loop does not test both 'is pending' and 'listed once'")
+		}
+	}
+}
+
+// ctrlBlockOf returns the block a return outcome leaves from (the predecessor for phi-expanded outcomes).
+func ctrlBlockOf(o retOutcome) *ssa.BasicBlock {
+	if o.Pred != nil {
+		return o.Pred
+	}
+	return o.Ret.Block()
 }
 
 // dominatesInLoop: within one iteration of the loop (blocks of loop), a executes before b on every path from the header to b.
